@@ -426,14 +426,23 @@ func c17() int {
 		}
 	})
 	tokenChecks(rep, &tokenEvals)
+	storeN := 5
+	if rep.Thorough() {
+		storeN = 7
+	}
+	storeWalks, storeFetches := c17StoreWalks(rep, storeN)
+	transitions += int64(storeFetches)
+	states += int64(storeFetches)
 	cov := evid.Coverage{
 		"states":                        int(states),
 		"transitions":                   int(transitions),
 		"traces_validated_against_impl": len(jobs) + int(tokenEvals),
 		"samples":                       []interface{}{fmt.Sprintf("%+v", jobs[len(jobs)/2]), fmt.Sprintf("%+v", jobs[len(jobs)-1])},
 		"exhaustive":                    true,
-		"rule":                          fmt.Sprintf("cursor-graph walk of bunpaginate.UsingColumn / UsingOffset over an in-memory table (minidb executes the SQL they emit): collection sizes 0..%d (ids with gaps and dense) x page sizes 1..%d x both orders x with/without a filter = %d walks; states = pages reached, transitions = page fetches (next and previous); plus %d cursor tokens of filtered store listings (every filter expression to depth 2 over the keys of transactions / accounts / logs, PIT on/off) decoded and compared by the SQL they issue, directly and through GET ?cursor=", maxN, maxN+1, len(jobs), tokenEvals),
+		"rule":                          fmt.Sprintf("cursor-graph walk of bunpaginate.UsingColumn / UsingOffset over an in-memory table (minidb executes the SQL they emit): collection sizes 0..%d (ids with gaps and dense) x page sizes 1..%d x both orders x with/without a filter = %d walks; states = pages reached, transitions = page fetches (next and previous); plus %d cursor tokens of filtered store listings (every filter expression to depth 2 over the keys of transactions / accounts / logs, PIT on/off) decoded and compared by the SQL they issue, directly and through GET ?cursor=; plus store-level walks: the real GetTransactions / GetAccountsWithVolumes / GetLogs executed on pgmini over ledgers of 0..%d transactions x every page size x with/without a metadata filter", maxN, maxN+1, len(jobs), tokenEvals, storeN),
 		"walks":                         len(jobs),
+		"store_level_walks":             storeWalks,
+		"store_level_fetches":           storeFetches,
 		"token_round_trips":             int(tokenEvals),
 	}
 	rep.Assume = []string{"minidb executes the single-table SELECT / WHERE / ORDER BY / LIMIT / OFFSET shape exactly as SQL defines it; PostgreSQL itself is not available", "store-level listings are compared by the SQL text they emit (same SQL = same query), not executed"}
